@@ -128,7 +128,7 @@ def cases(draw):
 
 def run_shard(ctx):
     K = ctx.scale(oracle.K_QUICK, oracle.K_THOROUGH)
-    n = ctx.scale(80, 1000)
+    n = ctx.scale(110, 1000)
     hyp_search(ctx, cases(), lambda c: check_case(c, ctx.stats, K), n)
 
 
